@@ -1804,7 +1804,8 @@ class sptensor:
             return self.copy()
         idx = np.where(shapeArray > 1)[0]
         if idx.size == 0:
-            return self.vals.item()
+            # Only singleton modes: the single entry (zero if it is not stored)
+            return self.vals.item() if self.nnz > 0 else 0.0
         siz = tuple(shapeArray[idx])
         if self.vals.size == 0:
             return ttb.sptensor(np.array([]), np.array([]), siz, copy=False)
